@@ -68,6 +68,10 @@ func (u *controlUnit) cycle(cycle int) {
 	if u.msi.staleState {
 		u.msiStatesCopy = u.msi.copyState()
 		u.msi.staleState = false
+		// Nothing is pushed in this cycle: the runners pushed in the previous
+		// one may have been taken by an execute unit meanwhile, they can't be
+		// a forwarding source anymore
+		u.pushedRunnersInPreviousCycle = nil
 		// Return to simulate that it takes a cycle to sync the MSI state
 		return
 	}
